@@ -291,6 +291,9 @@ def cases(thorough):
                                                          "star"],
                   directed=[0], w=[1]):
         out.append(["network", p])
+    for p in grid(n=[10, 12, 17] + ([33, 40] if big else []),
+                  kind=["cycle", "star", "complete"], complex=[False]):
+        out.append(["res", p])
     for p in grid(n=[182, 200] if big else [182], kind=["cycle"]):
         out.append(["grid", dict(n=p["n"], dims=2)])
     return out
